@@ -106,7 +106,9 @@ class Analysis:
     def __init__(self, F, maygc, returns_unrooted):
         self.F = F
         self.maygc = maygc
-        self.returns_unrooted = returns_unrooted
+        # function -> name of the primitive source its unrooted result comes from (None: the function's own name).
+        # A set is accepted as well (every function named after itself).
+        self.returns_unrooted = returns_unrooted if isinstance(returns_unrooted, dict) else {n: None for n in returns_unrooted}
         self.guard_inst = guard_instantiations(F)
 
     def _defs(self, fn):
@@ -118,7 +120,8 @@ class Analysis:
         return c
 
     def run(self, fn, param_sources=(), capture_sources=None):
-        """Returns (hazards, returns_unrooted: bool, closure_seeds: {closure short: {capture name: origin label}})"""
+        """Returns (hazards, returns_unrooted: bool, closure_seeds: {closure short: {capture name: origin label}});
+        afterwards self.last_return_source names the primitive source (callee) of the unrooted value fn returns, if any"""
         self.fn = fn
         blocks = fn.blocks
         nloc = len(fn.mir["locals"])
@@ -128,7 +131,7 @@ class Analysis:
         def new_origin(site, kind, label, ln, active=True):
             if site in origin_of_site:
                 return origin_of_site[site]
-            origins.append({"kind": kind, "label": label, "ln": ln, "active": active})
+            origins.append({"kind": kind, "label": label, "ln": ln, "active": active, "source": None})
             origin_of_site[site] = len(origins) - 1
             return origin_of_site[site]
 
@@ -145,6 +148,7 @@ class Analysis:
         hazards = {}
         guard_locals = set(l for l in range(nloc) if "ObjectGcGuard" in fn.local_ty(l) and not fn.local_ty(l).startswith("&"))
         ret_unrooted = [False]
+        ret_sources = set()
         seeds = defaultdict(dict)
 
         def taint_of_place(state, p):
@@ -365,8 +369,13 @@ class Analysis:
                 elif any(n in POP for n in names) or any(n in self.returns_unrooted for n in names) or any(n in RELEASE for n in names) \
                         or any("From<vm::runtime::cao_lang_object::ObjectGcGuard>" in n for n in names):
                     nm = fn.local_name(dst["l"])
-                    lab = nm or names[-1].rsplit("::", 1)[-1]
+                    # a wrapper that hands on the unrooted result of X is named X: the origin keeps its name when
+                    # "push the arguments, call X" is extracted into a helper
+                    source = next((self.returns_unrooted[n] for n in names if self.returns_unrooted.get(n)), None) \
+                        or names[-1].rsplit("::", 1)[-1]
+                    lab = nm or source
                     oid = new_origin(("call", b), "popped" if any(n in POP for n in names) else "unrooted-result", lab, term.get("ln"))
+                    origins[oid]["source"] = source
                     t.add((oid, True, None))
                 else:
                     for a in args:
@@ -382,6 +391,8 @@ class Analysis:
                     if origins[oid]["active"] or origins[oid]["kind"] == "guard":
                         if ref_capable(fn.local_ty(0)):
                             ret_unrooted[0] = True
+                            if origins[oid].get("source"):
+                                ret_sources.add((origins[oid]["ln"] or 0, origins[oid]["source"]))
             # name origins after the user variable they are first copied into
             for s_ in term_succs(term):
                 old = IN.get(s_)
@@ -400,6 +411,7 @@ class Analysis:
                     if changed and s_ not in work:
                         work.append(s_)
         # improve labels: an origin whose destination is a temp gets the name of the user variable it flows to
+        self.last_return_source = sorted(ret_sources)[0][1] if ret_sources else None
         return list(hazards.values()), ret_unrooted[0], seeds
 
 
